@@ -162,7 +162,7 @@ def verify_function(contract: Contract, specs=None, variant=None) -> FunctionRep
             st.vars[a.vararg.arg] = make_input(types.get(a.vararg.arg, "list"), a.vararg.arg, st, ex)
         if a.kwarg is not None:
             st.vars[a.kwarg.arg] = make_input("dict", a.kwarg.arg, st, ex)
-        if contract.opts.get("start_at_loop") is not None:
+        if contract.opts.get("start_at_loop") is not None or contract.opts.get("region_for_target") is not None:
             for nme, kind in types.items():
                 if nme not in st.vars:
                     st.vars[nme] = make_input(kind, nme, st, ex)
@@ -210,7 +210,16 @@ def verify_function(contract: Contract, specs=None, variant=None) -> FunctionRep
         rep.obligations.append(Obligation(f"{site}::cover:pre", "cover", list(st.pc), z3.BoolVal(True), {}, expect="sat"))
         body = source.strip_docstring(fn.body)
         sal = contract.opts.get("start_at_loop")
-        if sal is not None:
+        tgt = contract.opts.get("region_for_target")
+        if tgt is not None:
+            # statement contract on ONE top-level for-loop, found by its target variable name (robust against edits elsewhere)
+            loopnode = next((s_ for s_ in ast.walk(fn) if isinstance(s_, (ast.For, ast.AsyncFor)) and ast.unparse(s_.target) == tgt), None)
+            if loopnode is None:
+                raise OutOfSubset(f"region_for_target={tgt}: no such for-loop")
+            body = [loopnode]
+            rep.assumptions.append(f"{contract.qual}: only the `for {tgt} in ...` region is verified (statement contract; the rest of the function is "
+                                   f"dropped for this obligation; locals {sorted(types)} are inputs)")
+        elif sal is not None:
             # statement contract (DESIGN §2.5): verify from the k-th loop on; the prelude is dropped and every local the
             # remaining statements read is an input declared in opts['types']
             idx = next((i for i, s_ in enumerate(body) if any(ex.loop_ids.get(id(n)) == sal for n in ast.walk(s_))), None)
